@@ -52,7 +52,7 @@ func init() {
 	property(&Property{
 		ID:    "C13",
 		Rules: []string{"SX-nl-schema", "SX-nl-enum", "SX-sp-schema", "SX-sp-enum", "NC-1"},
-		Explain: "Over the automaton extracted from the schema scanner and the enum-rule scanner (abstract interpretation of Next(), every reachable abstract state up to the stack bound / node cap): LF and CR have identical effect in every state (verdict, events with spans, successor state), so LF, CR and CRLF spellings scan alike; space and tab have identical effect in every state outside content states (string bodies, annotation/comment text, bare rule names — listed with reasons), so indentation style does not change the scan. NC-1: every comparison of a lexeme's text with a rule name ("enum", "type", "or", the names in the rule constructor table) is made on the unquoted text, so quoted and bare rule names are equivalent.",
+		Explain: "Over the automaton extracted from the schema scanner and the enum-rule scanner (abstract interpretation of Next(), every reachable abstract state up to the stack bound / node cap): LF and CR have identical effect in every state (verdict, events with spans, successor state), so LF, CR and CRLF spellings scan alike; space and tab have identical effect in every state outside content states (string bodies, annotation/comment text, bare rule names — listed with reasons), so indentation style does not change the scan. NC-1: every comparison of a lexeme's text with a rule name (enum, type, or, the names in the rule constructor table) is made on the unquoted text, so quoted and bare rule names are equivalent.",
 		Assume: []string{
 			"comment placement, inline versus multi-line annotation equivalence, quoted versus bare rule names, rule order and escape normalisation are not decided by these rules",
 			"the schema scanner's state space is explored breadth-first up to a node cap (5000 states quick)",
